@@ -57,7 +57,14 @@ def to_lib(K, naming='int', how=0, containers='list'):
         V, E = set(V), set(E)
     elif containers == 'tuple':
         V, E = tuple(V), tuple(E)
-    return Kripke(S=V, R=E, L=L)
+    try:
+        return Kripke(S=V, R=E, L=L)
+    except Exception as e:
+        from . import core
+        raise core.Refused(core.Failure('build', {'K': K, 'naming': naming, 'how': how, 'containers': containers},
+                                        'Kripke(S, R, L) builds the total structure',
+                                        'raised %s: %s' % (type(e).__name__, str(e)[:200]),
+                                        'S=%r R=%r' % (V, E)))
 
 
 def name_of(naming):
